@@ -236,6 +236,10 @@ func genC12(r *Rng, tier string) *World {
 				op.Opts = append(op.Opts, OptSpec{K: "ctx", Key: k, Val: VS(k + "-v" + strconv.Itoa(r.Intn(3)))})
 			}
 		}
+		dupCtx(r, &op)
+		for i := range op.Opts {
+			op.Opts[i].Shared = r.P(0.3)
+		}
 		op.Rev = r.P(0.35)
 		ops = append(ops, op)
 	}
@@ -521,14 +525,20 @@ func genC04(r *Rng, tier string) *World {
 		}
 		input = VM(KV{"l", VL(rec)})
 	}
+	front := ""
+	if mode == "parse" && root.Kind == "struct" && r.P(0.15) {
+		// the record handed over as Go struct values (fields found by name: keys spelled like exported fields)
+		front = "gostruct"
+		input = capitalKeys(root, input)
+	}
 	w.Schemas = []*Node{root}
-	op := Op{Kind: mode, Schema: 0, Input: input}
+	op := Op{Kind: mode, Schema: 0, Input: input, Front: front}
 	if mode == "parse" {
 		s := Sentinel(root)
 		op.Pre = &s
 	}
 	// one warm-up call so that pools are populated
-	warm := Op{Kind: mode, Schema: 0, Input: input}
+	warm := Op{Kind: mode, Schema: 0, Input: input, Front: front}
 	w.Tasks = [][]Op{{warm, op}}
 	w.Params = map[string]int{"placement": placement, "class": class}
 	return w
@@ -632,4 +642,51 @@ func runC04(x *X) *Violation {
 		}
 	}
 	return nil
+}
+
+// capitalKeys spells every schema key of the tree (and of the record) like an exported Go field.
+func capitalKeys(n *Node, v Val) Val {
+	out := capitalRecord(n, v)
+	n.Walk(func(m *Node) {
+		for _, f := range m.Fields {
+			f.Key = GoName(f.Key)
+		}
+	})
+	return out
+}
+
+func capitalRecord(n *Node, v Val) Val {
+	switch n.Kind {
+	case "struct":
+		if v.K != "m" {
+			return v
+		}
+		out := VM()
+		for _, kv := range v.M {
+			var sub *Node
+			for _, f := range n.Fields {
+				if f.Key == kv.K {
+					sub = f.N
+				}
+			}
+			if sub != nil {
+				out.M = append(out.M, KV{GoName(kv.K), capitalRecord(sub, kv.V)})
+			} else {
+				out.M = append(out.M, kv)
+			}
+		}
+		return out
+	case "slice":
+		if v.K != "l" {
+			return v
+		}
+		out := VL()
+		for _, e := range v.L {
+			out.L = append(out.L, capitalRecord(n.Elem, e))
+		}
+		return out
+	case "ptr", "pre":
+		return capitalRecord(n.Elem, v)
+	}
+	return v
 }
